@@ -182,8 +182,8 @@ def _store_shape(tree, cls, info):
     if not (isinstance(nv, ast.Call) and _u(nv.func) == "Array"):
         raise TranslateError(f"{where}: new_storage_var must be a fresh Array")
     name = nv.args[0]
-    if not (isinstance(name, ast.JoinedStr) and "1 + len(ex.storages)" in _u(name)):
-        raise TranslateError(f"{where}: the array variable must be numbered 1 + len(ex.storages)")
+    if not (isinstance(name, ast.JoinedStr) and "uid()" in _u(name) and "len(ex.storages)" in _u(name)):
+        raise TranslateError(f"{where}: the array variable's name must be fresh (uid() and the number of definitions so far)")
     idx = {}
     for i, st in enumerate(body):
         if _is_append(st, lambda a, b: {_u(a), _u(b)} == {"new_storage_var", "new_storage"}) is not None:
